@@ -57,7 +57,7 @@ pub fn export_symbol(name: &str) -> *const () {
 /// The host destroys an exported resource whose last handle is gone: it calls
 /// the `[dtor]` export of the interface that defines the resource.
 fn call_dtor(iface: &str, resource: &str, rep: u64) {
-    let f: unsafe extern "C" fn(*mut u8) = unsafe { core::mem::transmute(export_symbol(&format!("verif:c07/{iface}#[dtor]{resource}"))) };
+    let f: unsafe extern "C" fn(*mut u8) = unsafe { core::mem::transmute(export_symbol(&format!("{iface}#[dtor]{resource}"))) };
     ledger::guest(|| unsafe { f(rep as usize as *mut u8) });
 }
 
@@ -303,6 +303,38 @@ impl types::GuestToken for MyToken {
         *unsafe { Box::from_raw(handle) }
     }
 }
+mod exp4 {
+    pub use crate::c07_bindings::exports::other::pkg::exp4::*;
+}
+/// The resource of `other:pkg/exp4`, an exported interface of another package than the world's.
+pub struct MyWidget(MyGadget);
+impl exp4::GuestWidget for MyWidget {
+    fn new(a: u32) -> Self {
+        MyWidget(MyGadget::create(a))
+    }
+    fn value(&self) -> u32 {
+        self.0.id
+    }
+}
+pub trait WidgetRef {
+    fn wid(&self) -> u32;
+}
+impl WidgetRef for exp4::WidgetBorrow<'_> {
+    fn wid(&self) -> u32 {
+        self.get::<MyWidget>().0.id
+    }
+}
+impl WidgetRef for &exp4::Widget {
+    fn wid(&self) -> u32 {
+        self.get::<MyWidget>().0.id
+    }
+}
+pub mod exp4_impl {
+    use super::*;
+    pub fn probe(w: impl WidgetRef, n: u32) -> u32 {
+        w.wid().wrapping_mul(3).wrapping_add(n)
+    }
+}
 pub mod exp3_impl {
     use super::*;
     pub fn make_token(n: u32) -> exp3::Token {
@@ -458,13 +490,15 @@ enum RTy {
     Thing,
     Gadget,
     Token,
+    Widget,
 }
 impl RTy {
     /// (interface that defines the exported resource, its name)
     fn exported(self) -> (&'static str, &'static str) {
         match self {
-            RTy::Gadget => ("exp", "gadget"),
-            RTy::Token => ("types", "token"),
+            RTy::Gadget => ("verif:c07/exp", "gadget"),
+            RTy::Token => ("verif:c07/types", "token"),
+            RTy::Widget => ("other:pkg/exp4", "widget"),
             RTy::Thing => unreachable!(),
         }
     }
@@ -482,8 +516,10 @@ struct St {
     thing_ty: TypeId,
     gadget_ty: TypeId,
     token_ty: TypeId,
+    widget_ty: TypeId,
     /// tokens the host owns: rep -> expected id
     tokens: Vec<(u64, u32)>,
+    widgets: Vec<(u64, u32)>,
     table: BTreeMap<u32, HEntry>,
     free: Vec<u32>,
     next_index: u32,
@@ -503,7 +539,7 @@ struct St {
     lifting_export_result: bool,
 }
 static mut ST: Option<St> = None;
-static mut WORLD: Option<&'static (Resolve, BTreeMap<String, Function>, BTreeMap<String, Function>, TypeId, TypeId, TypeId)> = None;
+static mut WORLD: Option<&'static (Resolve, BTreeMap<String, Function>, BTreeMap<String, Function>, TypeId, TypeId, TypeId, TypeId)> = None;
 fn st() -> &'static mut St {
     unsafe { ST.as_mut().unwrap() }
 }
@@ -511,7 +547,7 @@ fn violate(class: &str, site: &str, msg: String) -> ! {
     with(|h| h.violate(class, site, msg))
 }
 
-fn world() -> &'static (Resolve, BTreeMap<String, Function>, BTreeMap<String, Function>, TypeId, TypeId, TypeId) {
+fn world() -> &'static (Resolve, BTreeMap<String, Function>, BTreeMap<String, Function>, TypeId, TypeId, TypeId, TypeId) {
     unsafe {
         if let Some(w) = WORLD {
             return w;
@@ -523,7 +559,7 @@ fn world() -> &'static (Resolve, BTreeMap<String, Function>, BTreeMap<String, Fu
         let pkg = resolve.push_str("w.wit", &host_wit).expect("c07 wit");
         let wid = resolve.select_world(&[pkg], None).unwrap();
         let (mut imports, mut exports) = (BTreeMap::new(), BTreeMap::new());
-        let (mut thing, mut gadget, mut token) = (None, None, None);
+        let (mut thing, mut gadget, mut token, mut widget) = (None, None, None, None);
         for (dir, items) in [(0, &resolve.worlds[wid].imports), (1, &resolve.worlds[wid].exports)] {
             for (key, item) in items.iter() {
                 match item {
@@ -542,6 +578,9 @@ fn world() -> &'static (Resolve, BTreeMap<String, Function>, BTreeMap<String, Fu
                             if n == "token" {
                                 token = Some(type_root(&resolve, *t));
                             }
+                            if n == "widget" {
+                                widget = Some(type_root(&resolve, *t));
+                            }
                         }
                     }
                     WorldItem::Function(f) => {
@@ -552,7 +591,7 @@ fn world() -> &'static (Resolve, BTreeMap<String, Function>, BTreeMap<String, Fu
                 let _: &WorldKey = key;
             }
         }
-        let w: &'static _ = Box::leak(Box::new((resolve, imports, exports, thing.unwrap(), gadget.unwrap(), token.unwrap())));
+        let w: &'static _ = Box::leak(Box::new((resolve, imports, exports, thing.unwrap(), gadget.unwrap(), token.unwrap(), widget.unwrap())));
         WORLD = Some(w);
         w
     }
@@ -576,6 +615,8 @@ fn rty(resolve: &Resolve, id: TypeId) -> RTy {
         RTy::Thing
     } else if cur == s.token_ty {
         RTy::Token
+    } else if cur == s.widget_ty {
+        RTy::Widget
     } else if cur == s.gadget_ty {
         RTy::Gadget
     } else {
@@ -630,6 +671,8 @@ fn guest_gives(v: &Val, ty: &Type, what: &str, lent: &mut Vec<u32>) {
                         s.owned.push((e.rep, 0));
                     } else if want == RTy::Token {
                         s.tokens.push((e.rep, 0));
+                    } else if want == RTy::Widget {
+                        s.widgets.push((e.rep, 0));
                     } else {
                         // the host now owns the thing; it destroys it at some point
                         *s.things.get_mut(&e.rep).unwrap() = true;
@@ -812,6 +855,7 @@ fn dispatch(module: &str, name: &str, args: &[u64]) -> u64 {
             "thing" => RTy::Thing,
             "gadget" => RTy::Gadget,
             "token" => RTy::Token,
+            "widget" => RTy::Widget,
             _ => violate("ABI", "import", format!("unexpected import {module} / {name}")),
         };
         let e = match s.table.get(&i).copied() {
@@ -828,7 +872,7 @@ fn dispatch(module: &str, name: &str, args: &[u64]) -> u64 {
             RTy::Thing => {
                 *s.things.get_mut(&e.rep).unwrap() = true;
             }
-            RTy::Gadget | RTy::Token => {
+            RTy::Gadget | RTy::Token | RTy::Widget => {
                 // the guest defines the resource: dropping its last own handle makes the host
                 // call the destructor export
                 let (iface, res) = want.exported();
@@ -841,6 +885,7 @@ fn dispatch(module: &str, name: &str, args: &[u64]) -> u64 {
         let ty = match r {
             "gadget" => RTy::Gadget,
             "token" => RTy::Token,
+            "widget" => RTy::Widget,
             _ => violate("ABI", "import", format!("unexpected import {module} / {name}")),
         };
         let rep = args[0];
@@ -855,6 +900,7 @@ fn dispatch(module: &str, name: &str, args: &[u64]) -> u64 {
         let ty = match r {
             "gadget" => RTy::Gadget,
             "token" => RTy::Token,
+            "widget" => RTy::Widget,
             _ => violate("ABI", "import", format!("unexpected import {module} / {name}")),
         };
         let i = args[0] as u32;
@@ -1028,7 +1074,9 @@ pub fn run_one(fam: &str, seed: u64, idx: u64, ch: Choices, trace: bool) -> RunR
             thing_ty: w.3,
             gadget_ty: w.4,
             token_ty: w.5,
+            widget_ty: w.6,
             tokens: vec![],
+            widgets: vec![],
             table: BTreeMap::new(),
             free: vec![],
             next_index: 0,
@@ -1057,7 +1105,7 @@ pub fn run_one(fam: &str, seed: u64, idx: u64, ch: Choices, trace: bool) -> RunR
     for _ in 0..nops {
         steps += 1;
         let nowned = st().owned.len();
-        let op = with(|h| h.ch.weighted(&[4, 2, if nowned > 0 { 3 } else { 0 }, if nowned > 1 { 3 } else { 0 }, if nowned > 0 { 2 } else { 0 }, 2, if nowned > 0 { 3 } else { 0 }, if nowned > 0 { 3 } else { 0 }, if nowned > 0 { 2 } else { 0 }, 2, if nowned > 0 { 2 } else { 0 }, 5, 2, 2, 1, if nowned > 0 { 2 } else { 0 }, if nowned > 0 { 1 } else { 0 }, 2, if st().tokens.is_empty() { 0 } else { 3 }, 2, 2]));
+        let op = with(|h| h.ch.weighted(&[4, 2, if nowned > 0 { 3 } else { 0 }, if nowned > 1 { 3 } else { 0 }, if nowned > 0 { 2 } else { 0 }, 2, if nowned > 0 { 3 } else { 0 }, if nowned > 0 { 3 } else { 0 }, if nowned > 0 { 2 } else { 0 }, 2, if nowned > 0 { 2 } else { 0 }, 5, 2, 2, 1, if nowned > 0 { 2 } else { 0 }, if nowned > 0 { 1 } else { 0 }, 2, if st().tokens.is_empty() { 0 } else { 3 }, 2, 2, 3]));
         match op {
             // constructor
             0 => {
@@ -1336,6 +1384,47 @@ pub fn run_one(fam: &str, seed: u64, idx: u64, ch: Choices, trace: bool) -> RunR
                 }
                 with(|h| h.fault("list_result_with_spare_capacity"));
             }
+            // other:pkg/exp4: an exported interface of another package; its resource through
+            // constructor, method (borrowed self), a borrow parameter, and the host's drop
+            21 => {
+                let nw = st().widgets.len();
+                match if nw == 0 { 0 } else { pick(4) } {
+                    0 => {
+                        let id = fresh_gid();
+                        let before = st().widgets.len();
+                        call_export("[constructor]widget", &[Val::U(id as u64)]);
+                        if st().widgets.len() != before + 1 {
+                            violate("H-HANDLE", "widget", "the widget constructor did not transfer exactly one handle".into());
+                        }
+                        st().widgets.last_mut().unwrap().1 = id;
+                    }
+                    1 => {
+                        let (rep, id) = st().widgets[pick(nw)];
+                        let r = call_export("[method]widget.value", &[Val::Borrow(rep as u32)]);
+                        if r != Some(Val::U(id as u64)) {
+                            violate("H-IDENTITY", "widget.value", format!("widget.value returned {r:?}, expected {id}"));
+                        }
+                    }
+                    2 => {
+                        let (rep, id) = st().widgets[pick(nw)];
+                        let n = pick(50) as u32;
+                        let r = call_export("probe", &[Val::Borrow(rep as u32), Val::U(n as u64)]);
+                        let expect = id.wrapping_mul(3).wrapping_add(n);
+                        if r != Some(Val::U(expect as u64)) {
+                            violate("H-IDENTITY", "probe", format!("probe returned {r:?}, expected {expect}"));
+                        }
+                    }
+                    _ => {
+                        let (rep, id) = st().widgets.remove(pick(nw));
+                        let before = unsafe { TOTAL_DROPS };
+                        call_dtor("other:pkg/exp4", "widget", rep);
+                        if unsafe { TOTAL_DROPS } != before + 1 {
+                            violate("H-DROP", "dtor", format!("dropping the host's handle to widget {id} destroyed {} Rust values (expected exactly one)", unsafe { TOTAL_DROPS } - before));
+                        }
+                    }
+                }
+                with(|h| h.fault("exported_interface_of_another_package"));
+            }
             // exp3.make-token: a resource defined by an interface without functions
             17 => {
                 let id = fresh_gid();
@@ -1423,6 +1512,9 @@ pub fn run_one(fam: &str, seed: u64, idx: u64, ch: Choices, trace: bool) -> RunR
     while let Some((rep, id)) = st().tokens.pop() {
         host_drop_token(rep, id);
     }
+    while let Some((rep, _)) = st().widgets.pop() {
+        call_dtor("other:pkg/exp4", "widget", rep);
+    }
     STASHED.with(|s| s.borrow_mut().clear());
     let s = st();
     if !s.table.is_empty() {
@@ -1498,7 +1590,7 @@ fn remap_script(raw: Vec<Val>) -> Vec<Val> {
 fn host_drop_token(rep: u64, id: u32) {
     let before = unsafe { TOTAL_DROPS };
     with(|h| cmhost::tr!(h, "host drops its own<token> (id {id}): destructor runs"));
-    call_dtor("types", "token", rep);
+    call_dtor("verif:c07/types", "token", rep);
     let after = unsafe { TOTAL_DROPS };
     if after != before + 1 {
         violate("H-DROP", "dtor", format!("dropping the host's handle to token {id} destroyed {} Rust values (expected exactly one, and only now)", after - before));
@@ -1507,7 +1599,7 @@ fn host_drop_token(rep: u64, id: u32) {
 fn host_drop_gadget(rep: u64, id: u32) {
     let before = unsafe { TOTAL_DROPS };
     with(|h| cmhost::tr!(h, "host drops its own<gadget> (id {id}): destructor runs"));
-    call_dtor("exp", "gadget", rep);
+    call_dtor("verif:c07/exp", "gadget", rep);
     let after = unsafe { TOTAL_DROPS };
     if after != before + 1 {
         violate("H-DROP", "dtor", format!("dropping the host's handle to exported resource {id} destroyed {} Rust values (expected exactly one, and only now)", after - before));
